@@ -2259,7 +2259,7 @@ def archive_contracts(reg):
              ("SevenZipReader._parse_end_header", [("self", READER_SELF)]),
              ("SevenZipReader._parse_header", [("self", READER_SELF)]),
              ("SevenZipReader.__init__", [("self", p_obj("SevenZipReader", {})), ("file", p_unk())]),
-             ("SevenZipFile.__enter__", [("self", p_obj("SevenZipFile", {"_file": p_unk(), "_password": p_unk(), "_reader": p_unk()}))])]
+             ("SevenZipFile.__enter__", [("self", p_obj("SevenZipFile", {"_file": p_ext("BytesIO"), "_password": p_unk(), "_reader": p_const(None)}))])]
     chain_contracts = {}
     for q, params in chain:
         t = f"{SEVEN}::{q}"
@@ -2273,8 +2273,23 @@ def archive_contracts(reg):
     def new_reader(ex, st, args, kwargs, node):
         """SevenZipReader(file): runs __init__ -- by its contract"""
         obj = ex.new_obj(st, "SevenZipReader", {})
+        st.ghost[("reader_built_from", obj.ref)] = args[0] if args else None
         return [(s_, obj) for (s_, _v) in ex.apply_contract(st, chain_contracts["SevenZipReader.__init__"], [obj] + list(args), kwargs, node)]
     reg.ext_models[("new", "SevenZipReader")] = new_reader
+
+    # round 7: what `with SevenZipFile(f, "r") as szf` binds -- the handle itself, holding a reader that was built from ITS OWN
+    # bytes (the precondition of the verified needs_password contracts; the call-site model m_7z_needs_password speaks about
+    # the reader view of the bytes handed to SevenZipFile)
+    def szf_enter_post(c):
+        from pyvc.values import VRef
+        d, d0 = _fields(c), _fields(c, at_exit=False)
+        r = d.get("_reader")
+        ok = (_returns_self(c) and _same_ext(d.get("_file"), d0["_file"]) and isinstance(r, VRef) and c.st.obj(r.ref).cls == "SevenZipReader"
+              and _same_ext(c.st.ghost.get(("reader_built_from", r.ref)), d0["_file"]))
+        return z3.BoolVal(bool(ok)) if _verifying(c) else z3.BoolVal(True)
+    chain_contracts["SevenZipFile.__enter__"].ensures = [("returns-self-holding-a-reader-built-from-its-own-bytes", szf_enter_post)]
+    chain_contracts["SevenZipFile.__enter__"].result_maker = None
+    EXECUTOR_KW[f"{SEVEN}::SevenZipFile.__enter__"] = {"inline_calls": False, "inline_local": False}     # exact: its one callee has a contract
     return out
 
 
